@@ -91,6 +91,15 @@ fn verif_native_lexer_token_witness() {
             if idx[k] + 1 < ALPHABET.len() { idx[k] += 1; for j in k + 1..idx.len() { idx[j] = 0; } break; }
         }
     }
+    // a dot followed by a delimiter (or the end of the text) is the dot of a dotted pair, whatever the delimiter
+    for d in [" ", "\t", "\n", "\r", "(", ")", "\"x\"", ";c\n", "|x|", ""] {
+        let text = format!("(a .{} b)", d);
+        n += 1;
+        let toks = lex(&text);
+        if !matches!(toks.get(2), Some(Ok((TokenData::Period, _)))) && bad.len() < 4 {
+            bad.push(format!("{:?}: third token {:?}, expected the dot token", text, toks.get(2)));
+        }
+    }
     // string literals: every character stands for itself, the mnemonic escapes for the characters R7RS assigns
     let escapes: [(char, char); 8] = [('a', '\u{7}'), ('b', '\u{8}'), ('t', '\u{9}'), ('n', '\n'), ('r', '\r'), ('"', '"'), ('\\', '\\'), ('|', '|')];
     for (e, want) in escapes.iter() {
